@@ -68,6 +68,7 @@ class Pattern:
 SIGNATURES: dict[str, list[str]] = {}
 EXTERNAL_SIGNATURES = {
     "write_csv": [["file"]], "write_parquet": [["file"]], "read_csv": [["source"]], "read_parquet": [["source"]],
+    "as_euler": [["seq", "degrees"]],
 }
 
 
@@ -671,6 +672,19 @@ class Matcher:
         if _depth < 6 and all(isinstance(p, str) or isinstance(p, Pattern) for p in patterns):
             srcs = [p.src if isinstance(p, Pattern) else p for p in patterns]
             for i, ps in enumerate(srcs):
+                # `$a, $b = ($X, $Y)` (an alias pair): the same with each target replaced by its component
+                mt = re.match(r"^\$([A-Za-z_]\w*)\s*,\s*\$([A-Za-z_]\w*)\s*=\s*\(?\s*(\$\$?[A-Za-z_]\w*)\s*,\s*(\$\$?[A-Za-z_]\w*)\s*\)?$", ps)
+                if mt and not self.find(pats[i], dict(binds or {})):
+                    v1, v2, e1, e2 = mt.groups()
+                    others = [re.sub(r"(?<!\$)\$" + v2 + r"\b", lambda _m: e2, re.sub(r"(?<!\$)\$" + v1 + r"\b", lambda _m: e1, q))
+                              for j, q in enumerate(srcs) if j != i]
+                    try:
+                        ok2, _w = self.all_of(others, binds, _depth=_depth + 1)
+                    except (SyntaxError, ValueError):
+                        ok2 = False
+                    if ok2:
+                        return True, ""
+                    continue
                 m = re.match(r"^\$([A-Za-z_][A-Za-z_0-9]*)\s*=\s*(?!=)(.+)$", ps, re.S)
                 if not m or "\n" in ps:
                     continue
@@ -679,7 +693,7 @@ class Matcher:
                     continue
                 if self.find(pats[i], dict(binds or {})):
                     continue  # the temporary exists as written: the failure lies elsewhere
-                others = [re.sub(r"(?<!\$)\$" + v + r"\b", "(" + e.replace("\\", "\\\\") + ")", q) for j, q in enumerate(srcs) if j != i]
+                others = [re.sub(r"(?<!\$)\$" + v + r"\b", lambda _m: "(" + e + ")", q) for j, q in enumerate(srcs) if j != i]
                 if others == [q for j, q in enumerate(srcs) if j != i]:
                     continue  # nobody uses it
                 try:
